@@ -40,6 +40,12 @@ def plan(tier):
 def cases(draw):
     recipe = draw(gen.problem_recipe(exact_only=True, densities=(10, 10, 8, 12)))
     n = recipe["n"]
+    if n == 1 and draw(st.integers(0, 3)) == 0:
+        # "every box lower<upper": a thin 1-D box (width 1e-3..1e-8, at most 1e3 widths away from the origin, so
+        # that the affine map keeps 12 significant digits inside the box)
+        w = float(10.0 ** -draw(st.integers(3, 8))) * draw(st.floats(1.0, 9.0))
+        c = draw(st.floats(-1e3, 1e3)) * w
+        recipe = dict(recipe, lower=[c - w / 2], upper=[c + w / 2])
     r = draw(gen.r_values)
     # N=1: a third of the cases go down to eps=1e-6 (the float-resolution floor); otherwise the per-dimension cost floor
     cheap = n > 1 or draw(st.integers(0, 2)) > 0
@@ -72,6 +78,7 @@ def body(case):
     sol = run.solve()
     hist = run.history()
     classes = ["N=%d" % n, "class=" + case["class"], "family=" + recipe["obj"]["family"],
+               "thin-box" if (n == 1 and recipe["upper"][0] - recipe["lower"][0] < 1e-3) else "ordinary-box",
                "budget-raised-then-solved-again" if case.get("first_limit") else "single-solve"]
     if "Exception was thrown" in run.stdout():
         if not swallowed_exception_is_float_resolution(run):
